@@ -82,6 +82,12 @@ class AliasDeref:
                 if not f.is_setter and set(self.ef.escapes(f)) & AE:
                     self.raising.add(n)
         self.safe = names - self.raising
+        # property setters of Alias that dereference the target: `x.attr = v` on a possibly-alias receiver raises like a load does
+        self.raising_setters: set[str] = set()
+        for n in names:
+            for f in prog.lookup_method(alias, n):
+                if f.is_setter and set(self.ef.escapes(f)) & AE:
+                    self.raising_setters.add(n)
         if len(self.raising) < 40:
             raise AnalysisError(f"only {len(self.raising)} raising Alias proxies computed (expected >= 40): exception-flow summaries broke")
 
@@ -92,7 +98,8 @@ class AliasDeref:
         out: list[Site] = []
         for f in fns:
             for n in walk_no_nested(f.node):
-                if not (isinstance(n, ast.Attribute) and isinstance(n.ctx, ast.Load) and n.attr in self.raising):
+                if not (isinstance(n, ast.Attribute) and ((isinstance(n.ctx, ast.Load) and n.attr in self.raising) or
+                                                          (isinstance(n.ctx, ast.Store) and n.attr in self.raising_setters))):
                     continue
                 recv = n.value
                 rtext = unparse(recv)
@@ -109,6 +116,15 @@ class AliasDeref:
                 if catches_both(enclosing_catch(n)):
                     out.append(Site(f, n, rtext, "handled", "inside a handler for both alias errors"))
                     continue
+                if isinstance(n.ctx, ast.Store):
+                    needed = set()
+                    for sf in self.prog.lookup_method(self.alias, n.attr):
+                        if sf.is_setter:
+                            needed |= set(self.ef.escapes(sf)) & AE
+                    got = enclosing_catch(n)
+                    if needed and (needed <= got or got & {"Exception", "BaseException"}):
+                        out.append(Site(f, n, rtext, "handled", f"inside a handler for what the setter raises ({sorted(needed)})"))
+                        continue
                 if dealiased(f, n, rtext):
                     out.append(Site(f, n, rtext, "dealiased", f"`{rtext}` replaced by its final target under a handler on every path"))
                     continue
